@@ -107,6 +107,25 @@ def wild_cases(ck, tier, seed, tmp):
             raise vlib.Broken("fontgen failed on a wild program: %r" % ex)
         cases.append({"id": "w%d" % k, "font_hex": fb.hex(), "text": text[:8], "rtl": rtl, "dirs": list(range(8)) if k % 3 == 0 else [rtl, rtl ^ 1],
                       "must_load": False, "wild": w, "opts": k % 8, "pos_assoc": (w["kind"] == "pos" and (33 in opcodes(w["code"]) or 30 in opcodes(w["code"])))})
+    # cursor programs: k NEXTs and a returned advance that walks back over them (and further), with and without a
+    # change on the way - the rule loop must still terminate within the loop limits whatever the cursor does
+    kcur = 0
+    for kind in ("sub", "pos"):
+        for rlen in (1, 2, 3):
+            for nnext in range(0, rlen + 1):
+                for ret in (-nnext, -nnext - 1, -nnext + 1, -3, 1):
+                    for body in (b"", bytes([1, 7, 35, 0])):            # nothing / advance.x = 7 on the first item
+                        act = body + bytes([25] * nnext) + bytes([1, ret & 0xFF, 48])
+                        c0 = rng.randrange(len(CLS))
+                        ctxc = [c0] + [rng.randrange(len(CLS)) for _ in range(rlen - 1)]
+                        m = {"upem": 1000, "rtl": kcur % 2, "nuser": 2,
+                             "glyphs": [{"adv": ADV[g], "attrs": {}} for g in range(len(ADV))],
+                             "cmap": {96 + g: g for g in range(1, len(ADV))}, "classes": [list(x) for x in CLS], "nlinear": len(CLS),
+                             "passes": [{"kind": kind, "maxloop": rng.choice([1, 3, 5]), "rules": [{"pre": 0, "ctx": ctxc, "con": b"", "act": act}]}]}
+                        txt = [rng.choice(CLS[c]) for c in ctxc] * 2 + [rng.randrange(1, len(ADV))]
+                        cases.append({"id": "cur%d" % kcur, "font_hex": gfont.build_font(m).hex(), "text": txt[:8], "rtl": kcur % 2,
+                                      "dirs": [0, 1, 3], "must_load": False, "wild": {"cursor": True, "kind": kind, "code": list(act), "rlen": rlen}})
+                        kcur += 1
     # state tables with cycles (loadable, never produced by a compiler): runs longer than the 64-entry slot map
     for k in range(12 if not (tier == "quick") else 6):
         c = rng.randrange(len(CLS))
